@@ -114,6 +114,12 @@ pub const PATHS: &[&str] = &[
     "/foo/bar/baz",
 ];
 
+/// Paths with non-ASCII characters next to rule tokens: letters (token characters) and punctuation
+/// (separators, on both the rule side and the request side of the token index).
+pub const PATHS_NONASCII: &[&str] = &[
+    "/ads\u{2014}foo", "/bar\u{2014}x", "/x\u{b7}bar", "/\u{2014}foo\u{2014}", "/ads/foo/bar\u{b7}", "/\u{e9}/bar", "/bar\u{e9}", "/foo/bar\u{a0}", "/ads\u{ff0f}foo/bar", "/\u{6587}ads/foo",
+];
+
 pub const QUERIES: &[&str] = &["", "?x=1", "?utm=1&b=2"];
 pub const SCHEMES: &[&str] = &["https", "http", "ws", "wss"];
 
@@ -155,6 +161,11 @@ fn urls(full: bool) -> Vec<String> {
                     v.push(format!("{}://{}{}{}", s, h, p, q));
                 }
             }
+        }
+    }
+    for h in ["ads.net", "example.com"] {
+        for p in PATHS_NONASCII {
+            v.push(format!("https://{}{}", h, p));
         }
     }
     v
